@@ -234,6 +234,15 @@ func (d *Decoder) decompress(claimedUncompressedSize int, rd io.Reader) (decompr
 	if err != nil {
 		return nil, fmt.Errorf("error decompressing payload: %w", err)
 	}
+	// The body must inflate to exactly the claimed size, not more.
+	var extra [1]byte
+	if n, err := d.zrd.Read(extra[:]); n != 0 || err != io.EOF {
+		if err != nil && err != io.EOF {
+			return nil, fmt.Errorf("error decompressing payload: %w", err)
+		}
+		return nil, errs.NewSilentErr("decompressed data is larger than the claimed uncompressed size %d",
+			claimedUncompressedSize)
+	}
 	return decompressed, d.zrd.Close()
 }
 
